@@ -10,6 +10,8 @@ pydbml is involved).  For every token boundary / every token of a kind, every fa
   badword     an unknown setting word added to every settings list (column, index, reference, table, group, enum item) at every
               position of the list; `key: 'value'` added with the properties option off
   badvalue    every index type, reference operator, action and colour replaced by each value of a list of invalid ones
+  aftercomment  at every line start: a `//` comment ending in \\, /*, a quote, a backtick, a brace ... (or a block comment)
+              followed by a line that is not DBML — a comment must end at its line end and hide nothing
   truncated   the document cut at every token boundary that leaves a brace / bracket / parenthesis open, and after every token
               that needs a continuation (Ref:, relation operator, `as`, element keyword, `:` of a setting)
 
@@ -34,7 +36,7 @@ ASSUMPTIONS = ['seeds contain no comments and no quote characters inside strings
                'deleted quote always leaves a string unterminated',
                'a library exception from the semantic phase (e.g. a dangling reference after a cut) also counts as "not accepted"; any other class is a violation']
 
-STRAY = [';', '@', '=', ')', ']', '}', '$$']
+STRAY = [';', '@', '=', ')', ']', '}', '$$', '\ufeff']
 BAD_INDEX_TYPES = ['foo', 'b-tree', 'hashh', '']
 BAD_OPERATORS = ['>>', '=', '<=', '->', '><', '']
 BAD_ACTIONS = ['explode', 'cascade all', 'setnull', 'no', '']
@@ -111,6 +113,8 @@ def m_stray(toks):
         # never directly inside a pair that forms one lexical unit (e.g. between `ref` and `:`): boundaries between writer tokens are
         # real token boundaries; skip positions where the inserted text would merge with a neighbouring word into a longer valid word
         for s in STRAY:
+            if s == '\ufeff' and not any(t.text.strip() for t in toks[:i]):
+                continue            # a byte-order mark at the very beginning is legitimate
             yield f'{s!r} at boundary {i}', text_of(toks[:i] + [Tok(' ' + s + ' ', 'raw')] + toks[i:])
 
 
@@ -223,7 +227,24 @@ def m_truncated(toks):
             yield f'cut after {t.text!r} #{i} + newline', text_of(toks[:i + 1]) + '\n'
 
 
-MUTATORS = {'stray': m_stray, 'unclosed': m_unclosed, 'doubled': m_doubled, 'badword': m_badword, 'badvalue': m_badvalue, 'truncated': m_truncated}
+COMMENT_ENDINGS = ['', ' \\', ' /*', " '", ' `', ' {', ' "', " '''", ' [', ' */', ' \\\\']
+
+
+def m_aftercomment(toks):
+    """a comment line (ending in characters that could tempt a lexer) followed by a line that is not DBML, at every line start"""
+    for i, t in enumerate(toks):
+        if t.kind != 'nl':
+            continue
+        for end in COMMENT_ENDINGS:
+            for bad in (';', 'foo = bar', '}'):
+                ins = [Tok('// a comment' + end, 'comment'), Tok('\n', 'nl'), Tok(bad, 'raw'), Tok('\n', 'nl')]
+                yield f'comment ending {end!r} then {bad!r} after line break #{i}', text_of(toks[:i + 1] + ins + toks[i + 1:])
+        for bad in (';', 'foo = bar'):
+            ins = [Tok('/* block', 'comment'), Tok('\n', 'nl'), Tok('   comment \\ */', 'comment'), Tok('\n', 'nl'), Tok(bad, 'raw'), Tok('\n', 'nl')]
+            yield f'block comment then {bad!r} after line break #{i}', text_of(toks[:i + 1] + ins + toks[i + 1:])
+
+
+MUTATORS = {'aftercomment': m_aftercomment, 'stray': m_stray, 'unclosed': m_unclosed, 'doubled': m_doubled, 'badword': m_badword, 'badvalue': m_badvalue, 'truncated': m_truncated}
 
 
 def units(tier, seed):
